@@ -50,6 +50,7 @@ known("C05","C05/reparse-error/URI/Target/len300","a URI target longer than 255 
 known("C05","C05/reparse-error/CAA/Value/len300","a CAA value longer than 255 octets prints as one quoted string that the parser splits into 255-octet chunks and then rejects ('bad CAA Value')")
 fixed("C05","C05/rdata-differs/NSEC3/Salt/boundary1","9e33174","NSEC3.parse and HIP.parse converted the hex length to uint8 before halving it: salts / HITs of 128..255 octets got a wrong length field when read from text")
 fixed("C05","C05/reparse-error/X25/PSDNAddress/space","bd5e33b","X25 printed its PSDN address verbatim (no quoting) and parsed a single bare token: addresses with blanks, ';', parentheses or empty could not be read back")
+fixed("C05","C05/zone-sequence/parse-error/IPSECKEY","844328e","an IPSECKEY record followed by another entry made the zone parser fail with 'garbage after rdata': IPSECKEY.parse called slurpRemainder after endingToString had already consumed the end of the line, so it read the next entry's owner")
 # ---- C06
 known("C06","C06/quoting/NAPTR/bare","NAPTR flags/service/regexp written as bare (unquoted) <character-string>s, which RFC 1035 s.5.1 allows, are rejected: the NAPTR parser insists on quotes")
 fixed("C06","C06/ttl/omitted-uses-$TTL/ttl-class/generate","c4c1c70","records produced by $GENERATE ignored $TTL, the last stated TTL and the configured default (always 3600)")
